@@ -87,32 +87,40 @@ theorem dispatchAll_closeBlocks (cfg : SrvCfg) (env : InitEnv) (st : RState) (li
 /-- every successful `mstep` is one of these (exact successor state and effects, except for the two reader steps that run
     `runLocal` and the pool-thread steps, which are described by `runLocal` / `pstep`). -/
 inductive MStepKind (s : MState) (env : InitEnv) : String → MOp → MState → List MEff → Prop
-  | deliver (c : String) : MStepKind s env "P" (.deliver c) { s with inbound := s.inbound ++ [c] } []
+  | deliver (c : String) (he : s.inEnd = false) :
+      MStepKind s env "P" (.deliver c) { s with inbound := s.inbound ++ [c] } []
+  | endOfInput : MStepKind s env "P" .endOfInput { s with inEnd := true } []
   | mStart (h : s.mpc = 0) : MStepKind s env "M" .threadStart { s with mpc := 1, wthr := 1 } []
   | mPut (h : s.mpc = 1) (l : String) :
       MStepKind s env "M" .put { s with sendQ := s.sendQ ++ [some l], mpc := 2, rthr := 1 } [.enqueue l]
   | rStart (h : s.rthr = 1) : MStepKind s env "R" .threadStart { s with rthr := 2 } []
-  | rRecv (h2 : 2 ≤ s.rthr) (h3 : s.rthr ≠ 3) (hrq : s.rq = []) (c : String) (rest : List String)
+  | rRecv (h2 : 2 ≤ s.rthr) (h3 : s.rthr ≠ 3) (h4 : s.rthr ≠ 4) (hrq : s.rq = []) (c : String) (rest : List String)
       (hin : s.inbound = c :: rest) :
       MStepKind s env "R" .recv (runLocal (recvState s env c rest) (recvActs s env c)).1
         (runLocal (recvState s env c rest) (recvActs s env c)).2
-  | rPut (h2 : 2 ≤ s.rthr) (h3 : s.rthr ≠ 3) (l : String) (rest : List RAct) (hrq : s.rq = .reply l :: rest) :
+  | rFail (h2 : 2 ≤ s.rthr) (h3 : s.rthr ≠ 3) (h4 : s.rthr ≠ 4) (hrq : s.rq = []) (hin : s.inbound = [])
+      (he : s.inEnd = true) : MStepKind s env "R" .recv (ioReport { s with rthr := 4 }) (ioEffects s.cfg)
+  | rPut (h2 : 2 ≤ s.rthr) (h3 : s.rthr ≠ 3) (h4 : s.rthr ≠ 4) (l : String) (rest : List RAct)
+      (hrq : s.rq = .reply l :: rest) :
       MStepKind s env "R" .put (runLocal { s with sendQ := s.sendQ ++ [some l] } rest).1
         (.enqueue l :: (runLocal { s with sendQ := s.sendQ ++ [some l] } rest).2)
-  | rQuit (h2 : 2 ≤ s.rthr) (h3 : s.rthr ≠ 3) (rest : List RAct) (hrq : s.rq = .quit :: rest) :
+  | rQuit (h2 : 2 ≤ s.rthr) (h3 : s.rthr ≠ 3) (h4 : s.rthr ≠ 4) (rest : List RAct) (hrq : s.rq = .quit :: rest) :
       MStepKind s env "R" .put { s with sendQ := s.sendQ ++ [none], rq := rest, cpc := 1 } [.enqueuePill]
-  | rJoin (h2 : 2 ≤ s.rthr) (h3 : s.rthr ≠ 3) (rest : List RAct) (hrq : s.rq = .poolShutdown :: rest)
-      (hc : s.cpc = 1) (hw : s.wthr = 3) : MStepKind s env "R" .join { s with cpc := 2 } []
-  | rPoolWait (h2 : 2 ≤ s.rthr) (h3 : s.rthr ≠ 3) (rest : List RAct) (hrq : s.rq = .poolShutdown :: .sockClose :: rest)
-      (hc : s.cpc = 2) (hr : s.pool.running = 0) (hq : s.pool.workQ = []) :
+  | rJoin (h2 : 2 ≤ s.rthr) (h3 : s.rthr ≠ 3) (h4 : s.rthr ≠ 4) (rest : List RAct) (hrq : s.rq = .poolShutdown :: rest)
+      (hc : s.cpc = 1) (hw : s.wthr = 3 ∨ s.wthr = 4) : MStepKind s env "R" .join { s with cpc := 2 } []
+  | rPoolWait (h2 : 2 ≤ s.rthr) (h3 : s.rthr ≠ 3) (h4 : s.rthr ≠ 4) (rest : List RAct)
+      (hrq : s.rq = .poolShutdown :: .sockClose :: rest) (hc : s.cpc = 2) (hr : s.pool.running = 0) (hq : s.pool.workQ = []) :
       MStepKind s env "R" .poolWait { s with cpc := 3, sockClosed := true, rq := [], rthr := 3 } [.sockClose]
   | wStart (h : s.wthr = 1) : MStepKind s env "W" .threadStart { s with wthr := 2 } []
-  | wGet (h2 : 2 ≤ s.wthr) (h3 : s.wthr ≠ 3) (hws : s.wsend = none) (m : String) (rest : List (Option String))
-      (hq : s.sendQ = some m :: rest) : MStepKind s env "W" .get { s with sendQ := rest, wsend := some m } []
-  | wPill (h2 : 2 ≤ s.wthr) (h3 : s.wthr ≠ 3) (hws : s.wsend = none) (rest : List (Option String))
+  | wGet (h2 : 2 ≤ s.wthr) (h3 : s.wthr ≠ 3) (h4 : s.wthr ≠ 4) (hws : s.wsend = none) (m : String)
+      (rest : List (Option String)) (hq : s.sendQ = some m :: rest) :
+      MStepKind s env "W" .get { s with sendQ := rest, wsend := some m } []
+  | wPill (h2 : 2 ≤ s.wthr) (h3 : s.wthr ≠ 3) (h4 : s.wthr ≠ 4) (hws : s.wsend = none) (rest : List (Option String))
       (hq : s.sendQ = none :: rest) : MStepKind s env "W" .get { s with sendQ := rest, wthr := 3 } []
-  | wSend (h2 : 2 ≤ s.wthr) (h3 : s.wthr ≠ 3) (m : String) (hws : s.wsend = some m) :
+  | wSend (h2 : 2 ≤ s.wthr) (h3 : s.wthr ≠ 3) (h4 : s.wthr ≠ 4) (m : String) (hws : s.wsend = some m) :
       MStepKind s env "W" .send { s with wsend := none, written := s.written ++ [m] } [.sent (m ++ "\r\n")]
+  | wFail (h2 : 2 ≤ s.wthr) (h3 : s.wthr ≠ 3) (h4 : s.wthr ≠ 4) (m : String) (hws : s.wsend = some m) :
+      MStepKind s env "W" .sendFail (ioReport { s with wsend := none, wthr := 4 }) (ioEffects s.cfg)
   | pool (tid : String) (op : MOp) (effs : List MEff) (hT : tid ≠ "P" ∧ tid ≠ "M" ∧ tid ≠ "R" ∧ tid ≠ "W")
       (a : PAct) (p : PState) (pe : List PEff) (hns : ∀ r m ar, a ≠ .submit r m ar)
       (hp : pstep s.pool a = some (p, pe)) (he : enqs effs = peffLines pe) :
@@ -122,12 +130,20 @@ theorem mstep_kind {s s' : MState} {env : InitEnv} {tid : String} {op : MOp} {ef
     (h : mstep s env tid op = some (s', effs)) : MStepKind s env tid op s' effs := by
   unfold mstep at h
   split at h
+  · cases h
+  split at h
   · next hP =>
     subst hP
     split at h
+    · split at h
+      · cases h
+      · next he =>
+        simp only [Option.some.injEq, Prod.mk.injEq] at h
+        obtain ⟨rfl, rfl⟩ := h
+        exact .deliver _ (by simpa using he)
     · simp only [Option.some.injEq, Prod.mk.injEq] at h
       obtain ⟨rfl, rfl⟩ := h
-      exact .deliver _
+      exact .endOfInput
     · cases h
   · next hP =>
     split at h
@@ -160,36 +176,43 @@ theorem mstep_kind {s s' : MState} {env : InitEnv} {tid : String} {op : MOp} {ef
           · next h0 =>
             have h2 : 2 ≤ s.rthr := by omega
             have h3 : s.rthr ≠ 3 := by omega
+            have h4 : s.rthr ≠ 4 := by omega
             split at h
             · next hrq =>
               split at h
-              · cases h
+              · next hin =>
+                split at h
+                · next he =>
+                  simp only [Option.some.injEq, Prod.mk.injEq] at h
+                  obtain ⟨rfl, rfl⟩ := h
+                  exact .rFail h2 h3 h4 hrq hin he
+                · cases h
               · next c rest hin =>
                 simp only [Option.some.injEq] at h
-                have := MStepKind.rRecv (env := env) h2 h3 hrq c rest hin
+                have := MStepKind.rRecv (env := env) h2 h3 h4 hrq c rest hin
                 rw [show (runLocal (recvState s env c rest) (recvActs s env c)) = (s', effs) from h] at this
                 exact this
             · next l rest hrq =>
               simp only [Option.some.injEq, Prod.mk.injEq] at h
               obtain ⟨rfl, rfl⟩ := h
-              exact .rPut h2 h3 l rest hrq
+              exact .rPut h2 h3 h4 l rest hrq
             · next rest hrq =>
               simp only [Option.some.injEq, Prod.mk.injEq] at h
               obtain ⟨rfl, rfl⟩ := h
-              exact .rQuit h2 h3 rest hrq
+              exact .rQuit h2 h3 h4 rest hrq
             · next rest hrq =>
               split at h
               · next hc =>
                 simp only [Option.some.injEq, Prod.mk.injEq] at h
                 obtain ⟨rfl, rfl⟩ := h
-                exact .rJoin h2 h3 rest hrq hc.1 hc.2
+                exact .rJoin h2 h3 h4 rest hrq hc.1 hc.2
               · cases h
             · next rest hrq =>
               split at h
               · next hc =>
                 simp only [Option.some.injEq, Prod.mk.injEq] at h
                 obtain ⟨rfl, rfl⟩ := h
-                exact .rPoolWait h2 h3 rest hrq hc.1 hc.2.1 hc.2.2
+                exact .rPoolWait h2 h3 h4 rest hrq hc.1 hc.2.1 hc.2.2
               · cases h
             · cases h
       · next hR =>
@@ -209,22 +232,27 @@ theorem mstep_kind {s s' : MState} {env : InitEnv} {tid : String} {op : MOp} {ef
             · next h0 =>
               have h2 : 2 ≤ s.wthr := by omega
               have h3 : s.wthr ≠ 3 := by omega
+              have h4 : s.wthr ≠ 4 := by omega
               split at h
+              · next m hws =>
+                simp only [Option.some.injEq, Prod.mk.injEq] at h
+                obtain ⟨rfl, rfl⟩ := h
+                exact .wFail h2 h3 h4 m hws
               · next hws =>
                 split at h
                 · next m rest hq =>
                   simp only [Option.some.injEq, Prod.mk.injEq] at h
                   obtain ⟨rfl, rfl⟩ := h
-                  exact .wGet h2 h3 hws m rest hq
+                  exact .wGet h2 h3 h4 hws m rest hq
                 · next rest hq =>
                   simp only [Option.some.injEq, Prod.mk.injEq] at h
                   obtain ⟨rfl, rfl⟩ := h
-                  exact .wPill h2 h3 hws rest hq
+                  exact .wPill h2 h3 h4 hws rest hq
                 · cases h
               · next m hws =>
                 simp only [Option.some.injEq, Prod.mk.injEq] at h
                 obtain ⟨rfl, rfl⟩ := h
-                exact .wSend h2 h3 m hws
+                exact .wSend h2 h3 h4 m hws
               · cases h
         · next hW =>
           split at h
@@ -293,8 +321,8 @@ structure CloseInv (s : MState) : Prop where
   cpcLe : s.cpc ≤ 3
   /-- the writer stops only by taking the stop pill, which only `close()` enqueues -/
   wStopped : s.wthr = 3 → 1 ≤ s.cpc
-  /-- the reader joined the writer before going on -/
-  joined : 2 ≤ s.cpc → s.wthr = 3
+  /-- the reader joined the writer (stopped by the pill, or dead on a failed write) before going on -/
+  joined : 2 ≤ s.cpc → s.wthr = 3 ∨ s.wthr = 4
   /-- the socket is closed exactly when `close()` has completed -/
   sock : s.sockClosed = true ↔ s.cpc = 3
   /-- at most one stop pill, present exactly while `close()` has begun and the writer has not taken it yet -/
@@ -306,10 +334,10 @@ structure CloseInv (s : MState) : Prop where
   /-- the reader has left its loop exactly when `close()` has completed -/
   rEnded : s.rthr = 3 ↔ s.cpc = 3
   /-- the writer exists (its thread was created; it may not have begun to run yet) before anything can be closed -/
-  wExists : 1 ≤ s.cpc → s.wthr = 1 ∨ s.wthr = 2 ∨ s.wthr = 3
-  /-- thread states stay in range -/
-  wLe : s.wthr ≤ 3
-  rLe : s.rthr ≤ 3
+  wExists : 1 ≤ s.cpc → s.wthr = 1 ∨ s.wthr = 2 ∨ s.wthr = 3 ∨ s.wthr = 4
+  /-- thread states stay in range (4: died on an I/O failure) -/
+  wLe : s.wthr ≤ 4
+  rLe : s.rthr ≤ 4
   /-- the reader is created by the starting thread's last step … -/
   rStarted : s.rthr ≠ 0 → s.mpc = 2
   /-- … after the writer … -/
@@ -318,6 +346,8 @@ structure CloseInv (s : MState) : Prop where
   cStarted : 1 ≤ s.cpc → 2 ≤ s.rthr
   /-- the writer leaves its loop empty-handed -/
   wFlushed : s.wthr = 3 → s.wsend = none
+  /-- a reader that died on a failed read never called `close()` (the failing read happens at the top of its loop) -/
+  rDied : s.rthr = 4 → s.cpc = 0
 
 theorem closeInv_init (cfg : SrvCfg) (n : Nat) : CloseInv (MInit cfg n) := by
   constructor <;> simp [MInit, CloseBlocks]
@@ -328,8 +358,8 @@ theorem CloseInv.frame {s s' : MState} (hi : CloseInv s) (h1 : s'.cpc = s.cpc) (
     (h3 : s'.rthr = s.rthr) (h4 : s'.mpc = s.mpc) (h5 : s'.sockClosed = s.sockClosed)
     (h6 : (s'.sendQ.filter (· = none)).length = (s.sendQ.filter (· = none)).length) (h7 : s'.wsend = s.wsend)
     (h8 : s'.rq = s.rq ∨ (s.cpc = 0 ∧ CloseBlocks s'.rq)) : CloseInv s' := by
-  obtain ⟨c1, c2, c3, c4, c5, ⟨c6a, c6b, c6c⟩, c7, c8, c9, c10, c11, c12, c13, c14⟩ := hi
-  refine ⟨?_, ?_, ?_, ?_, ?_, ⟨?_, ?_, ?_⟩, ?_, ?_, ?_, ?_, ?_, ?_, ?_, ?_⟩ <;>
+  obtain ⟨c1, c2, c3, c4, c5, ⟨c6a, c6b, c6c⟩, c7, c8, c9, c10, c11, c12, c13, c14, c15⟩ := hi
+  refine ⟨?_, ?_, ?_, ?_, ?_, ⟨?_, ?_, ?_⟩, ?_, ?_, ?_, ?_, ?_, ?_, ?_, ?_, ?_⟩ <;>
     (try rw [h1]) <;> (try rw [h2]) <;> (try rw [h3]) <;> (try rw [h4]) <;> (try rw [h5]) <;> (try rw [h6]) <;>
     (try rw [h7]) <;> (try assumption)
   · intro h0
@@ -347,16 +377,36 @@ theorem CloseInv.frame {s s' : MState} (hi : CloseInv s) (h1 : s'.cpc = s.cpc) (
 
 theorem closeInv_step {s s' : MState} {env : InitEnv} {tid : String} {op : MOp} {effs : List MEff}
     (hi : CloseInv s) (h : mstep s env tid op = some (s', effs)) : CloseInv s' := by
-  obtain ⟨c1, c2, c3, c4, c5, ⟨c6a, c6b, c6c⟩, c7, c8, c9, c10, c11, c12, c13, c14⟩ := hi
+  obtain ⟨c1, c2, c3, c4, c5, ⟨c6a, c6b, c6c⟩, c7, c8, c9, c10, c11, c12, c13, c14, c15⟩ := hi
   cases mstep_kind h with
-  | deliver c => exact ⟨c1, c2, c3, c4, c5, ⟨c6a, c6b, c6c⟩, c7, c8, c9, c10, c11, c12, c13, c14⟩
-  | mStart hm | mPut hm l | rStart h1 | wStart h1 | wSend h2 h3 m hws =>
-    refine ⟨?_, ?_, ?_, ?_, ?_, ⟨?_, ?_, ?_⟩, ?_, ?_, ?_, ?_, ?_, ?_, ?_, ?_⟩ <;> dsimp only <;>
+  | deliver c he => exact ⟨c1, c2, c3, c4, c5, ⟨c6a, c6b, c6c⟩, c7, c8, c9, c10, c11, c12, c13, c14, c15⟩
+  | endOfInput => exact ⟨c1, c2, c3, c4, c5, ⟨c6a, c6b, c6c⟩, c7, c8, c9, c10, c11, c12, c13, c14, c15⟩
+  | rFail h2 h3 h4 hrq hin he =>
+    have h0 : s.cpc = 0 := by
+      rcases Nat.lt_or_ge s.cpc 1 with h | h
+      · omega
+      · exfalso
+        rcases Nat.lt_or_ge s.cpc 3 with h' | h'
+        · obtain ⟨r, hr⟩ := c6b (by omega)
+          rw [hrq] at hr; cases hr
+        · exact h3 (c7.2 (by omega))
+    refine ⟨?_, ?_, ?_, ?_, ?_, ⟨?_, ?_, ?_⟩, ?_, ?_, ?_, ?_, ?_, ?_, ?_, ?_, ?_⟩ <;> dsimp only [ioReport] <;>
+      first
+        | assumption
+        | omega
+  | wFail h2 h3 h4 m hws =>
+    refine ⟨?_, ?_, ?_, ?_, ?_, ⟨?_, ?_, ?_⟩, ?_, ?_, ?_, ?_, ?_, ?_, ?_, ?_, ?_⟩ <;> dsimp only [ioReport] <;>
+      first
+        | assumption
+        | omega
+        | (rw [c5]; simp [h3])
+  | mStart hm | mPut hm l | rStart h1 | wStart h1 | wSend h2 h3 h4 m hws =>
+    refine ⟨?_, ?_, ?_, ?_, ?_, ⟨?_, ?_, ?_⟩, ?_, ?_, ?_, ?_, ?_, ?_, ?_, ?_, ?_⟩ <;> dsimp only <;>
       first
         | assumption
         | omega
         | ((try simp only [pills_append_some]); rw [c5]; try (split <;> split <;> omega))
-  | rQuit h2 h3 rest hrq =>
+  | rQuit h2 h3 h4 rest hrq =>
     have h0 : s.cpc = 0 := by
       rcases Nat.lt_or_ge s.cpc 1 with h | h
       · omega
@@ -367,50 +417,50 @@ theorem closeInv_step {s s' : MState} {env : InitEnv} {tid : String} {op : MOp} 
         · have := c6c (by omega)
           rw [hrq] at this; cases this
     obtain ⟨rest', hr', -⟩ := closeBlocks_quit (hrq ▸ c6a h0)
-    refine ⟨?_, ?_, ?_, ?_, ?_, ⟨?_, ?_, ?_⟩, ?_, ?_, ?_, ?_, ?_, ?_, ?_, ?_⟩ <;> dsimp only <;>
+    refine ⟨?_, ?_, ?_, ?_, ?_, ⟨?_, ?_, ?_⟩, ?_, ?_, ?_, ?_, ?_, ?_, ?_, ?_, ?_⟩ <;> dsimp only <;>
       first
         | assumption
         | omega
         | (rw [c4]; omega)
         | (simp only [pills_append_none]; rw [c5]; try (split <;> split <;> omega))
         | exact fun _ => ⟨rest', hr'⟩
-  | rJoin h2 h3 rest hrq hc hw =>
-    refine ⟨?_, ?_, ?_, ?_, ?_, ⟨?_, ?_, ?_⟩, ?_, ?_, ?_, ?_, ?_, ?_, ?_, ?_⟩ <;> dsimp only <;>
+  | rJoin h2 h3 h4 rest hrq hc hw =>
+    refine ⟨?_, ?_, ?_, ?_, ?_, ⟨?_, ?_, ?_⟩, ?_, ?_, ?_, ?_, ?_, ?_, ?_, ?_, ?_⟩ <;> dsimp only <;>
       first
         | assumption
         | omega
         | (rw [c4]; omega)
         | (rw [c5]; try (split <;> split <;> omega))
         | exact fun _ => c6b (.inl hc)
-  | rPoolWait h2 h3 rest hrq hc hr hq =>
-    refine ⟨?_, ?_, ?_, ?_, ?_, ⟨?_, ?_, ?_⟩, ?_, ?_, ?_, ?_, ?_, ?_, ?_, ?_⟩ <;> dsimp only <;>
+  | rPoolWait h2 h3 h4 rest hrq hc hr hq =>
+    refine ⟨?_, ?_, ?_, ?_, ?_, ⟨?_, ?_, ?_⟩, ?_, ?_, ?_, ?_, ?_, ?_, ?_, ?_, ?_⟩ <;> dsimp only <;>
       first
         | assumption
         | omega
         | (rw [c5]; try (split <;> split <;> omega))
         | simp
-  | wGet h2 h3 hws m rest hq =>
+  | wGet h2 h3 h4 hws m rest hq =>
     simp only [hq, List.filter_cons, reduceCtorEq, decide_false, Bool.false_eq_true, if_false] at c5
-    refine ⟨?_, ?_, ?_, ?_, ?_, ⟨?_, ?_, ?_⟩, ?_, ?_, ?_, ?_, ?_, ?_, ?_, ?_⟩ <;> dsimp only <;>
+    refine ⟨?_, ?_, ?_, ?_, ?_, ⟨?_, ?_, ?_⟩, ?_, ?_, ?_, ?_, ?_, ?_, ?_, ?_, ?_⟩ <;> dsimp only <;>
       first
         | assumption
         | omega
         | simp
-  | wPill h2 h3 hws rest hq =>
+  | wPill h2 h3 h4 hws rest hq =>
     simp only [hq, List.filter_cons, decide_true, if_true, List.length_cons] at c5
     have hc1 : 1 ≤ s.cpc := by
       split at c5
       · omega
       · omega
-    refine ⟨?_, ?_, ?_, ?_, ?_, ⟨?_, ?_, ?_⟩, ?_, ?_, ?_, ?_, ?_, ?_, ?_, ?_⟩ <;> dsimp only <;>
+    refine ⟨?_, ?_, ?_, ?_, ?_, ⟨?_, ?_, ?_⟩, ?_, ?_, ?_, ?_, ?_, ?_, ?_, ?_, ?_⟩ <;> dsimp only <;>
       first
         | assumption
         | omega
         | exact fun _ => hc1
         | exact fun _ => hws
         | (split at c5 <;> split <;> omega)
-  | rRecv h2 h3 hrq c rest hin =>
-    have hi : CloseInv s := ⟨c1, c2, c3, c4, c5, ⟨c6a, c6b, c6c⟩, c7, c8, c9, c10, c11, c12, c13, c14⟩
+  | rRecv h2 h3 h4 hrq c rest hin =>
+    have hi : CloseInv s := ⟨c1, c2, c3, c4, c5, ⟨c6a, c6b, c6c⟩, c7, c8, c9, c10, c11, c12, c13, c14, c15⟩
     have h0 : s.cpc = 0 := by
       rcases Nat.lt_or_ge s.cpc 1 with h | h
       · omega
@@ -421,8 +471,8 @@ theorem closeInv_step {s s' : MState} {env : InitEnv} {tid : String} {op : MOp} 
         · exact h3 (c7.2 (by omega))
     obtain ⟨g1, g2, g3, g4, g5, g6, g7, g8, -⟩ := runLocal_close (recvState s env c rest) (recvActs s env c)
     exact hi.frame g1 g2 g3 g4 g5 (by rw [g6]; rfl) g7 (.inr ⟨h0, g8 (dispatchAll_closeBlocks _ _ _ _)⟩)
-  | rPut h2 h3 l rest hrq =>
-    have hi : CloseInv s := ⟨c1, c2, c3, c4, c5, ⟨c6a, c6b, c6c⟩, c7, c8, c9, c10, c11, c12, c13, c14⟩
+  | rPut h2 h3 h4 l rest hrq =>
+    have hi : CloseInv s := ⟨c1, c2, c3, c4, c5, ⟨c6a, c6b, c6c⟩, c7, c8, c9, c10, c11, c12, c13, c14, c15⟩
     have h0 : s.cpc = 0 := by
       rcases Nat.lt_or_ge s.cpc 1 with h | h
       · omega
@@ -438,7 +488,7 @@ theorem closeInv_step {s s' : MState} {env : InitEnv} {tid : String} {op : MOp} 
       simpa [CloseBlocks] using this
     exact hi.frame g1 g2 g3 g4 g5 (by rw [g6]; exact pills_append_some _ _) g7 (.inr ⟨h0, g8 hb⟩)
   | pool tid op effs hT a p pe hns hp he =>
-    have hi : CloseInv s := ⟨c1, c2, c3, c4, c5, ⟨c6a, c6b, c6c⟩, c7, c8, c9, c10, c11, c12, c13, c14⟩
+    have hi : CloseInv s := ⟨c1, c2, c3, c4, c5, ⟨c6a, c6b, c6c⟩, c7, c8, c9, c10, c11, c12, c13, c14, c15⟩
     exact hi.frame rfl rfl rfl rfl rfl (pills_append_map_some _ _) rfl (.inl rfl)
 
 /-- **C20 (close on the server model).** In every reachable state: the writer has stopped before the reader goes on to
@@ -537,26 +587,27 @@ theorem mreach_closed_pool_idle {cfg : SrvCfg} {n : Nat} {s : MState} {log : Lis
     have inv := mreach_closeInv hr
     have pinv := mreach_pinv hr
     cases mstep_kind hs with
-    | deliver | mStart | mPut | rStart | wStart | wGet | wPill | wSend => exact ih hc
-    | rRecv h2 h3 hrq c rest hin =>
+    | deliver | endOfInput | mStart | mPut | rStart | wStart | wGet | wPill | wSend | rFail | wFail => exact ih hc
+    | rRecv h2 h3 h4 hrq c rest hin =>
       have g1 := (runLocal_close (recvState s env c rest) (recvActs s env c)).1
       rw [hc] at g1
       exact absurd (inv.rEnded.2 g1.symm) h3
-    | rPut h2 h3 l rest hrq =>
+    | rPut h2 h3 h4 l rest hrq =>
       have g1 := (runLocal_close { s with sendQ := s.sendQ ++ [some l] } rest).1
       rw [hc] at g1
       exact absurd (inv.rEnded.2 g1.symm) h3
     | rQuit => simp at hc
     | rJoin => simp at hc
-    | rPoolWait h2 h3 rest hrq hc' hr' hq' => exact ⟨hr', hq'⟩
+    | rPoolWait h2 h3 h4 rest hrq hc' hr' hq' => exact ⟨hr', hq'⟩
     | pool tid op effs hT a p pe hns hp he =>
       obtain ⟨i1, i2⟩ := ih hc
       exact (pool_idle_stuck pinv i1 i2 hp hns).elim
 
-/-- **C20: a completed `close()`.** Writer stopped, every accepted task finished, socket closed, reader gone. -/
+/-- **C20: a completed `close()`.** Writer ended (stopped by the pill, or dead on a failed write), every accepted task
+    finished, socket closed, reader gone. -/
 theorem c20s_closed {cfg : SrvCfg} {n : Nat} {s : MState} {log : List String} (h : MReach cfg n s log)
     (hc : s.cpc = 3) :
-    s.wthr = 3 ∧ s.rthr = 3 ∧ s.sockClosed = true ∧ s.pool.running = 0 ∧ s.pool.workQ = [] ∧
+    (s.wthr = 3 ∨ s.wthr = 4) ∧ s.rthr = 3 ∧ s.sockClosed = true ∧ s.pool.running = 0 ∧ s.pool.workQ = [] ∧
     (∀ t ∈ s.pool.tasks, t.pc.isDone = true) := by
   have inv := mreach_closeInv h
   obtain ⟨i1, i2⟩ := mreach_closed_pool_idle h hc
@@ -578,10 +629,11 @@ theorem mstep_close_no_handler {s s' : MState} {env : InitEnv} {op : MOp} {effs 
     MEff.handlerExc ∉ effs := by
   generalize hR : "R" = tid at h
   cases mstep_kind h with
-  | deliver | mStart | mPut | wStart | wGet | wPill | wSend => simp at hR
+  | deliver | endOfInput | mStart | mPut | wStart | wGet | wPill | wSend | wFail => simp at hR
   | rStart => simp at hop
   | rRecv => simp at hop
-  | rPut h2 h3 l rest hrq =>
+  | rFail => simp at hop
+  | rPut h2 h3 h4 l rest hrq =>
     rcases hop with ⟨-, r, hr⟩ | hop | hop
     · rw [hrq] at hr; cases hr
     · cases hop
@@ -613,13 +665,14 @@ theorem tname_startsWith (k : Nat) : (tname k).startsWith "T" = true := by
   simp [tname]
 
 /-- a step of pool thread `k` is the corresponding pool-machine step. -/
-theorem mstep_tname (s : MState) (env : InitEnv) (k : Nat) :
+theorem mstep_tname (s : MState) (env : InitEnv) (k : Nat) (hx : s.exited = false) :
     mstep s env (tname k) .taskStart = liftPool s (pstep s.pool (.start k)) ∧
     mstep s env (tname k) .adapterBegin = liftPool s (pstep s.pool (.callBegin k)) ∧
     mstep s env (tname k) .put = liftPool s (pstep s.pool (.put k)) := by
   obtain ⟨h1, h2, h3, h4⟩ := tname_ne k
   refine ⟨?_, ?_, ?_⟩ <;>
-    simp only [mstep, h1, h2, h3, h4, if_false, tname_startsWith, if_true, tname_drop, Nat.add_sub_cancel]
+    simp only [mstep, hx, Bool.false_eq_true, h1, h2, h3, h4, if_false, tname_startsWith, if_true, tname_drop,
+      Nat.add_sub_cancel]
 
 theorem liftPool_isSome (s : MState) (r : Option (PState × List PEff)) (h : r.isSome = true) :
     (liftPool s r).isSome = true := by
@@ -631,7 +684,7 @@ theorem liftPool_isSome (s : MState) (r : Option (PState × List PEff)) (h : r.i
 /-- **C20: `close()` gets through** — while it is under way some library step is enabled, unless a pool task is inside an
     adapter call (the adapter decides when to return).  (The pool has at least one worker: `c18_size_pos`.) -/
 theorem c20s_close_progress {cfg : SrvCfg} {n : Nat} {s : MState} {log : List String} (h : MReach cfg n s log)
-    (hn : 1 ≤ n) (hc : s.cpc = 1 ∨ s.cpc = 2) (env : InitEnv) :
+    (hn : 1 ≤ n) (hc : s.cpc = 1 ∨ s.cpc = 2) (hx : s.exited = false) (env : InitEnv) :
     (∃ tid op, (mstep s env tid op).isSome ∧ (tid = "R" ∨ tid = "W" ∨ tid.startsWith "T" = true)) ∨
     (∃ (k : Nat) (t : PTask) (c : Call), s.pool.tasks[k]? = some t ∧ t.pc = .inCall c) := by
   have inv := mreach_closeInv h
@@ -639,24 +692,26 @@ theorem c20s_close_progress {cfg : SrvCfg} {n : Nat} {s : MState} {log : List St
   obtain ⟨rest, hrq⟩ := inv.rqShape.2.1 hc
   have hr2 : 2 ≤ s.rthr := inv.cStarted (by omega)
   have hr3 : s.rthr ≠ 3 := fun h3 => by have := inv.rEnded.1 h3; omega
+  have hr4 : s.rthr ≠ 4 := fun h4 => by have := inv.rDied h4; omega
   have hr1 : ¬ s.rthr = 1 := by omega
-  have hr0 : ¬ (s.rthr = 0 ∨ s.rthr = 3) := by omega
+  have hr0 : ¬ (s.rthr = 0 ∨ s.rthr = 3 ∨ s.rthr = 4) := by omega
   rcases hc with hc | hc
   · -- the reader is joining the writer
-    rcases inv.wExists (by omega) with hw | hw | hw
-    · exact .inl ⟨"W", .threadStart, by simp [mstep, hw], .inr (.inl rfl)⟩
+    rcases inv.wExists (by omega) with hw | hw | hw | hw
+    · exact .inl ⟨"W", .threadStart, by simp [mstep, hx, hw], .inr (.inl rfl)⟩
     · cases hws : s.wsend with
-      | some m => exact .inl ⟨"W", .send, by simp [mstep, hw, hws], .inr (.inl rfl)⟩
+      | some m => exact .inl ⟨"W", .send, by simp [mstep, hx, hw, hws], .inr (.inl rfl)⟩
       | none =>
         have hp := inv.pill
         rw [if_pos ⟨by omega, by omega⟩] at hp
         cases hq : s.sendQ with
         | nil => rw [hq] at hp; simp at hp
-        | cons c q => exact .inl ⟨"W", .get, by cases c <;> simp [mstep, hw, hws, hq], .inr (.inl rfl)⟩
-    · exact .inl ⟨"R", .join, by simp [mstep, hr1, hr0, hrq, hc, hw], .inl rfl⟩
+        | cons c q => exact .inl ⟨"W", .get, by cases c <;> simp [mstep, hx, hw, hws, hq], .inr (.inl rfl)⟩
+    · exact .inl ⟨"R", .join, by simp [mstep, hx, hr1, hr0, hrq, hc, hw], .inl rfl⟩
+    · exact .inl ⟨"R", .join, by simp [mstep, hx, hr1, hr0, hrq, hc, hw], .inl rfl⟩
   · -- the reader waits for the pool
     by_cases hidle : s.pool.running = 0 ∧ s.pool.workQ = []
-    · exact .inl ⟨"R", .poolWait, by simp [mstep, hr1, hr0, hrq, hc, hidle.1, hidle.2], .inl rfl⟩
+    · exact .inl ⟨"R", .poolWait, by simp [mstep, hx, hr1, hr0, hrq, hc, hidle.1, hidle.2], .inl rfl⟩
     · by_cases hrun : s.pool.running = 0
       · -- nothing running, something queued: a free worker takes it
         have hq : s.pool.workQ ≠ [] := fun h => hidle ⟨hrun, h⟩
@@ -675,7 +730,7 @@ theorem c20s_close_progress {cfg : SrvCfg} {n : Nat} {s : MState} {log : List St
         obtain ⟨acts, hacts⟩ := mreach_pool h
         have hnn : s.pool.n = n := prun_n acts _ _ hacts
         refine .inl ⟨tname k, .taskStart, ?_, .inr (.inr (tname_startsWith k))⟩
-        rw [(mstep_tname s env k).1]
+        rw [(mstep_tname s env k hx).1]
         apply liftPool_isSome
         simp only [pstep, ht, hpc, hk]
         rw [if_pos ⟨trivial, by omega⟩]
@@ -692,12 +747,12 @@ theorem c20s_close_progress {cfg : SrvCfg} {n : Nat} {s : MState} {log : List St
         | inCall c => exact .inr ⟨k, t, c, ht, hp⟩
         | callBegin c =>
           refine .inl ⟨tname k, .adapterBegin, ?_, .inr (.inr (tname_startsWith k))⟩
-          rw [(mstep_tname s env k).2.1]
+          rw [(mstep_tname s env k hx).2.1]
           apply liftPool_isSome
           simp [pstep, ht, hp]
         | put line =>
           refine .inl ⟨tname k, .put, ?_, .inr (.inr (tname_startsWith k))⟩
-          rw [(mstep_tname s env k).2.2]
+          rw [(mstep_tname s env k hx).2.2]
           apply liftPool_isSome
           simp [pstep, ht, hp]
 
